@@ -157,8 +157,10 @@ func runC16(res *Result) {
 		if ent.hasDepth {
 			maxd = 3
 		}
-		for d := 0; d <= maxd; d++ {
-			d := d
+		for dd := 0; dd <= 2*maxd+1; dd++ {
+			// every entry is called twice: from the harness's ordinary (shallow) stack and from under
+			// 40 more frames, so that the captured stack exceeds any fixed-size first buffer
+			d, deep := dd/2, 40*(dd%2)
 			var ref []c16Frame
 			var got interface{}
 			var pv interface{}
@@ -170,11 +172,11 @@ func runC16(res *Result) {
 					}
 				}()
 				c16Ref = nil
-				got = lv3.Call(func() interface{} { return ent.call(d) })
+				got = c16Deep(deep, func() interface{} { return lv3.Call(func() interface{} { return ent.call(d) }) })
 				ref = c16Ref
 			}()
 			res.Cases++
-			cse := &Case{ID: fmt.Sprintf("%s/d=%d", ent.name, d), Cmd: L(Sym("c16"), Str(ent.name), Nat(d))}
+			cse := &Case{ID: fmt.Sprintf("%s/d=%d/under=%d", ent.name, d, deep), Cmd: L(Sym("c16"), Str(ent.name), Nat(d), Nat(deep))}
 			if !ok {
 				res.fail(cse, "C16.no_panic", fmt.Sprint(pv), "C16:panic:"+ent.name)
 				continue
@@ -230,4 +232,16 @@ func runC16(res *Result) {
 	res.Extra = map[string]interface{}{"c16_table_names": names}
 	res.Rule = "every exported stack-capturing / domain-computing function of the root package, errutil, withstack, domains × depth 0..3 (depth variants) through a chain of non-inlinable frames in distinct packages; the expected frame is read off runtime.Callers inside the calling closure"
 	res.Samples = []string{"errors.NewWithDepth(d, \"x\") for d=0..3 called as lv3.Call→lv2.Call→lv1.Call→closure", "domains.PackageDomainAtDepth(d)"}
+}
+
+// c16Deep calls f from under n additional stack frames.
+//
+//go:noinline
+func c16Deep(n int, f func() interface{}) interface{} {
+	if n <= 0 {
+		return f()
+	}
+	r := c16Deep(n-1, f)
+	runtime.KeepAlive(n)
+	return r
 }
